@@ -288,4 +288,30 @@ theorem gcLoop_run : ∀ (f : Nat) (m : Mgr) (ext : Nat → Nat) (work : List Na
       simp only [bind, M.bind', hrun]
       exact hl
 
+/-- any prefix of a run (intermediate states of the loop under an arbitrary pop order) -/
+inductive GcSteps : Mgr → List Nat → Mgr → List Nat → Prop
+  | refl (m : Mgr) (work : List Nat) : GcSteps m work m work
+  | step {m m' m'' : Mgr} {work work' work'' : List Nat} {u : Nat} :
+      u ∈ work → gcStep u (work.erase u) m = (.ok work', m') → GcSteps m' work' m'' work'' →
+      GcSteps m work m'' work''
+
+/-- at EVERY intermediate state of the loop the invariant and exact counts hold
+(with the same ledger `ext`) and only nodes were removed -/
+theorem GcSteps.spec {m m' : Mgr} {work work' : List Nat} (hrun : GcSteps m work m' work') :
+    ∀ {ext : Nat → Nat}, GcInv m ext work → GcInv m' ext work' ∧ GcSub m m' := by
+  induction hrun with
+  | refl m work => intro ext hi; exact ⟨hi, GcSub.refl m⟩
+  | @step m m1 m2 work work1 work2 u hu hstep _ ih =>
+    intro ext hi
+    obtain ⟨n, m1', work1', hn, hrun1, hp, hi1, -⟩ := hi.step hu
+    rw [hstep] at hrun1
+    cases hrun1
+    obtain ⟨h1, h2⟩ := ih hi1
+    exact ⟨h1, GcSub.trans ((GcSub.refl m).step hp) h2 hi.invS⟩
+
+theorem GcRun.toSteps {m mf : Mgr} {work : List Nat} (h : GcRun m work mf) : GcSteps m work mf [] := by
+  induction h with
+  | done m => exact GcSteps.refl m []
+  | step hu hs _ ih => exact GcSteps.step hu hs ih
+
 end DD
